@@ -30,8 +30,31 @@ def strip(s):
     return re.sub(r"//[^\n]*", "", s)
 
 
-def num(s):
-    return int(s.replace("_", ""))
+def num(s, src=""):
+    """value of a constant expression: decimal / hex literals (with _ separators and integer suffixes), + - * / and
+    parentheses, `as <int type>` casts between unsigned types, and names of `const`s defined in the same file"""
+    return cexpr(src, s, 0)
+
+
+def cexpr(src, text, depth):
+    t = re.sub(r"\bas\s+(?:u8|u16|u32|u64|usize)\b", "", text.strip())
+    t = re.sub(r"\b(0x[0-9a-fA-F_]+|[0-9][0-9_]*)(?:u8|u16|u32|u64|usize)?\b", lambda m: str(int(m.group(1).replace("_", ""), 0)), t)
+
+    def name(m):
+        mm = re.search(r"const %s:\s*\w+\s*=\s*([^;]+);" % m.group(1), src)
+        if not mm or depth > 6:
+            raise Untranslatable("constant expression: cannot resolve %s" % m.group(0))
+        return "(%d)" % cexpr(src, mm.group(1), depth + 1)
+    t = re.sub(r"\b(?:Self::)?([A-Z][A-Z0-9_]*)\b", name, t)
+    if not re.fullmatch(r"[0-9+\-*/ ()\n]+", t):
+        raise Untranslatable("constant expression: " + text.strip()[:80])
+    try:
+        v = eval(t.replace("/", "//"))
+    except Exception:
+        raise Untranslatable("constant expression: " + text.strip()[:80])
+    if v < 0:
+        raise Untranslatable("negative constant: " + text.strip()[:80])
+    return v
 
 
 def datarates(src):
@@ -46,27 +69,44 @@ def datarates(src):
             f = tok.group(1)
             sf = re.search(r"spreading_factor:\s*SpreadingFactor::_(\d+)", f)
             bw = re.search(r"bandwidth:\s*Bandwidth::(\w+)", f)
-            mx = re.search(r"max_mac_payload_size:\s*(\d+)", f)
+            mx = re.search(r"max_mac_payload_size:\s*([^,}]+)", f)
             if not (sf and bw and mx) or bw.group(1) not in BW:
                 raise Untranslatable("Datarate entry: " + f[:80])
-            out.append((int(sf.group(1)), BW[bw.group(1)], int(mx.group(1))))
+            out.append((int(sf.group(1)), BW[bw.group(1)], num(mx.group(1), src)))
     if len(out) != 15:
         raise Untranslatable("DATARATES has %d entries, expected 15" % len(out))
     return out
 
 
 def const(src, name):
-    m = re.search(r"const %s:\s*u\d+\s*=\s*([0-9_]+);" % name, src)
+    m = re.search(r"const %s:\s*(?:u\d+|usize)\s*=\s*([^;]+);" % name, src)
     if not m:
         raise Untranslatable("const %s not found" % name)
-    return num(m.group(1))
+    return num(m.group(1), src)
 
 
 def fn_range(src, fname):
-    m = re.search(r"fn %s\(f: u32\) -> bool \{\s*\(([0-9_]+)\.\.=([0-9_]+)\)\.contains" % fname, src)
+    m = re.search(r"fn %s\((\w+): u32\) -> bool \{\s*\(([^.()]+)\.\.=([^.()]+)\)\.contains\(&\1\)\s*\}" % fname, src)
+    if m:
+        return num(m.group(2), src), num(m.group(3), src)
+    # the same range written as a pair of comparisons
+    m = re.search(r"fn %s\((\w+): u32\) -> bool \{\s*\1 >= ([^&|]+?)\s*&&\s*\1 <= ([^&|{}]+?)\s*\}" % fname, src)
+    if m:
+        return num(m.group(2), src), num(m.group(3), src)
+    m = re.search(r"fn %s\((\w+): u32\) -> bool \{\s*([^&|]+?) <= \1\s*&&\s*\1 <= ([^&|{}]+?)\s*\}" % fname, src)
+    if m:
+        return num(m.group(2), src), num(m.group(3), src)
+    raise Untranslatable("frequency check %s" % fname)
+
+
+def chan_map(src, name, n):
+    m = re.search(r"%s:\s*\[u32;\s*%d\]\s*=\s*\[(.*?)\];" % (name, n), src, re.S)
     if not m:
-        raise Untranslatable("frequency check %s" % fname)
-    return num(m.group(1)), num(m.group(2))
+        raise Untranslatable("%s not found (as a written-out array of %d)" % (name, n))
+    vals = [num(x, src) for x in m.group(1).split(",") if x.strip()]
+    if len(vals) != n:
+        raise Untranslatable("%s has %d entries" % (name, len(vals)))
+    return vals
 
 
 def power(src):
@@ -95,14 +135,8 @@ def generate():
     cs = strip(open(os.path.join(R, "constants.rs")).read())
     for name in ("RECEIVE_DELAY1", "JOIN_ACCEPT_DELAY1", "JOIN_ACCEPT_DELAY2"):
         out.append("Definition c_%s : N := %d." % (name.lower(), const(cs, name)))
-    for name in ("MAX_FCNT_GAP", "ADR_ACK_LIMIT", "ADR_ACK_DELAY"):
-        m = re.search(r"const %s:\s*usize\s*=\s*([0-9_]+);" % name, cs)
-        if not m:
-            raise Untranslatable(name)
-        out.append("Definition c_%s : N := %d." % (name.lower(), num(m.group(1))))
-    for name in ("NUM_DATARATES", "NUM_CHANNELS_DYNAMIC"):
-        m = re.search(r"const %s:\s*u8\s*=\s*([0-9_]+);" % name, cs)
-        out.append("Definition c_%s : N := %d." % (name.lower(), num(m.group(1))))
+    for name in ("MAX_FCNT_GAP", "ADR_ACK_LIMIT", "ADR_ACK_DELAY", "NUM_DATARATES", "NUM_CHANNELS_DYNAMIC"):
+        out.append("Definition c_%s : N := %d." % (name.lower(), const(cs, name)))
     out.append("")
     rows = []
     for rid, name, path, kind in REGIONS:
@@ -110,20 +144,23 @@ def generate():
             src = strip(open(os.path.join(R, path)).read())
             dts = datarates(src)
             if name.startswith("AS923"):
-                m = re.search(r"type %s = DynamicChannelPlan<AS923Region<([0-9_]+), ([0-9_]+)>>" % name, src)
-                rx2, off = num(m.group(1)), num(m.group(2))
-                chans = [num(x) - off for x in re.findall(r"Channel::new\(([0-9_]+) - OFFSET", src)]
-                ctor = re.search(r"Region::%s => State::%s\(%s::(\w+)\(\)\)" % (name, name, name),
-                                 strip(open(os.path.join(R, "mod.rs")).read())).group(1)
-                fchk = {"new_as924": "as924_generic_freq_check", "new_as924_4": "as924_4_freq_check"}[ctor]
+                m = re.search(r"type %s\s*=\s*DynamicChannelPlan<\s*AS923Region<\s*([^,<>]+),\s*([^,<>]+?)\s*>\s*>" % name, src)
+                if not m:
+                    raise Untranslatable("%s: type alias" % name)
+                rx2, off = num(m.group(1).strip("{} "), src), num(m.group(2).strip("{} "), src)
+                chans = [num(x, src) - off for x in re.findall(r"Channel::new\(\s*([^,()]+?) - OFFSET", src)]
+                m = re.search(r"Region::%s => State::%s\(%s::(\w+)\(\)\)" % (name, name, name),
+                              strip(open(os.path.join(R, "mod.rs")).read()))
+                fchk = {"new_as924": "as924_generic_freq_check", "new_as924_4": "as924_4_freq_check"}.get(m.group(1) if m else None)
+                if fchk is None:
+                    raise Untranslatable("%s: constructor" % name)
                 lo, hi = fn_range(src, fchk)
-                maxoff = num(re.search(r"const MAX_RX1_DR_OFFSET: u8 = (\d+);", src).group(1))
             else:
-                rx2 = num(re.search(r"const DEFAULT_RX2_FREQ: u32 = ([0-9_]+);", src).group(1))
-                chans = [num(x) for x in re.findall(r"Channel::new\(([0-9_]+), DR", src)]
+                rx2 = const(src, "DEFAULT_RX2_FREQ")
+                chans = [num(x, src) for x in re.findall(r"Channel::new\(\s*([^,()]+?),\s*DR", src)]
                 lo, hi = fn_range(src, "%s_freq_check" % name.lower())
-                maxoff = num(re.search(r"const MAX_RX1_DR_OFFSET: u8 = (\d+);", src).group(1))
-            nj = num(re.search(r"const NUM_JOIN_CHANNELS: u8 = (\d+);", src).group(1))
+            maxoff = const(src, "MAX_RX1_DR_OFFSET")
+            nj = const(src, "NUM_JOIN_CHANNELS")
             if len(chans) != nj:
                 raise Untranslatable("%s: %d default channels vs NUM_JOIN_CHANNELS %d" % (name, len(chans), nj))
             eirp = const(src, "MAX_EIRP")
@@ -134,12 +171,9 @@ def generate():
             src = strip(open(os.path.join(R, path, "mod.rs")).read())
             dts = datarates(strip(open(os.path.join(R, path, "datarates.rs")).read()))
             fr = strip(open(os.path.join(R, path, "frequencies.rs")).read())
-            up = [num(x) for x in re.findall(r"([0-9_]{9,}),", re.search(r"UPLINK_CHANNEL_MAP: \[u32; 72\] = \[(.*?)\];", fr, re.S).group(1))]
-            down = [num(x) for x in re.findall(r"([0-9_]{9,}),", re.search(r"DOWNLINK_CHANNEL_MAP: \[u32; 8\] = \[(.*?)\];", fr, re.S).group(1))]
-            if len(up) != 72 or len(down) != 8:
-                raise Untranslatable("%s channel maps %d/%d" % (name, len(up), len(down)))
-            rx2 = num(re.search(r"const DEFAULT_RX2_FREQ: u32 = ([0-9_]+);", src).group(1))
-            maxoff = num(re.search(r"const MAX_RX1_DR_OFFSET: u8 = (\d+);", src).group(1))
+            up, down = chan_map(fr, "UPLINK_CHANNEL_MAP", 72), chan_map(fr, "DOWNLINK_CHANNEL_MAP", 8)
+            rx2 = const(src, "DEFAULT_RX2_FREQ")
+            maxoff = const(src, "MAX_RX1_DR_OFFSET")
             lo, hi = fn_range(src, "%s_default_freq" % name.lower())
             eirp = const(src, "MAX_EIRP")
             pmax, cap = power(src)
@@ -148,7 +182,7 @@ def generate():
             m2 = re.search(r"const JOIN_DR_500KHZ: DR = DR::_(\d+);", src)
             if not m1 or not m2:
                 raise Untranslatable("%s: join data rates" % name)
-            jdr = (num(m1.group(1)), num(m2.group(1)))
+            jdr = (int(m1.group(1)), int(m2.group(1)))
         dstr = "; ".join("None" if d is None else "Some (%d, %d, %d)" % d for d in dts)
         out.append("(* %s *)" % name)
         out.append("Definition r%d_datarates : list (option (N * N * N)) := [%s]." % (rid, dstr))
